@@ -436,7 +436,7 @@ def h_generated_multi(mode, cram):
 STREAMS = (None, "Stdout", "Stderr", "Combined")
 
 
-def h_update_exit_code(mode, cram, max_lines):
+def h_update_exit_code(mode, cram, max_lines, existing=False):
     """`update` / `create` of a test case that ended with another exit code than written: the block is written from the recorded output and the
     exit code.  stdout lines are [ab]x, stderr lines [ab]y (so that no line of one stream matches an expectation made from the other)."""
     from mir_exec import find_method as fm
@@ -461,7 +461,8 @@ def h_update_exit_code(mode, cram, max_lines):
             expected = ctx.sym_int("expected", "i32")
             ctx.add(z3.And(expected.z() >= 0, expected.z() <= 255))
             ctx.add(z3.If(exp_set.z(), expected.z(), 0) != actual.z())  # the test case failed on its exit code
-            ctx.notes.update(out=lines_of(n_out, "x", "o"), err=lines_of(n_err, "y", "e"), stream=stream, actual=actual, expected=expected, exp_set=exp_set)
+            ctx.notes.update(out=lines_of(n_out, "x", "o"), err=lines_of(n_err, "y", "e"), stream=stream, actual=actual, expected=expected, exp_set=exp_set,
+                             existing=existing)
             return [Agg("Escaper", mode, []), SBool(cram)]
         return setup
 
@@ -474,7 +475,15 @@ def h_update_exit_code(mode, cram, max_lines):
         cfg = mk_struct("TestCaseConfig", detached=none(), environment=MapBuf([]), keep_crlf=some(SBool(bool(cram_.v))),
                         output_stream=some(Agg("OutputStreamControl", n["stream"], [])) if n["stream"] else none(),
                         skip_document_code=none(), strip_ansi_escaping=none(), timeout=none(), wait=none())
-        tc = mk_struct("TestCase", title=StringBuf([]), shell_expression=StringBuf([SInt(ord(c), "char") for c in "cmd"]), expectations=VecBuf([]),
+        old_exps = []
+        if n.get("existing"):
+            # the test case already has an optional expectation that matches the first line of the validated stream (and nothing for the others)
+            first = (n["err"] if n["stream"] == "Stderr" else n["out"])[0]
+            r0 = ctx.call(fm(prog, "src/expectation.rs", "parse"), [new_ref(get_maker(ctx)), Str(list(first["content"]) + [SInt(ord(c), "char") for c in " (?)"])])
+            if r0.variant != "Ok":
+                raise Unsupported("existing expectation does not parse")
+            old_exps = [r0.fields[0]]
+        tc = mk_struct("TestCase", title=StringBuf([]), shell_expression=StringBuf([SInt(ord(c), "char") for c in "cmd"]), expectations=VecBuf(old_exps),
                        exit_code=SymOpt(n["exp_set"], n["expected"]), line_number=mk_int(1, "usize"), config=cfg)
         so = [b for ln in n["out"] for b in ln["bytes"]]
         se = [b for ln in n["err"] for b in ln["bytes"]]
@@ -528,7 +537,7 @@ def h_update_exit_code(mode, cram, max_lines):
         if len(exps) != len(lines):
             return fail("%d expectations for the %d line(s) of the validated stream" % (len(exps), len(lines)))
         for e, ln in zip(exps, lines):
-            if e.fields[0].v or e.fields[1].v:
+            if (e.fields[0].v or e.fields[1].v) and not n.get("existing"):
                 return fail("expectation carries a quantifier")
             m = rule_matches(ctx, e.fields[2], Slice(list(ln["bytes"]), "u8"))
             conds.append(m.v if m.concrete else m.z())
@@ -545,9 +554,11 @@ def h_update_exit_code(mode, cram, max_lines):
             for n_err in range(0, max_lines + 1):
                 if stream == "Combined" and n_err:
                     continue               # merged by the runner: the error stream is empty
+                if existing and (n_err if stream == "Stderr" else n_out) < 2:
+                    continue               # an expectation for the first line, at least one more line
                 for nl in (True, False):
                     inputs.append(("output_stream=%s stdout=%d line(s) stderr=%d line(s) final-newline=%s" % (stream, n_out, n_err, nl), mk(n_out, n_err, nl, stream)))
-    h = e2.Harness("rewritten_test_passes_after_exit_code_%s_%s" % ("cram" if cram else "markdown", mode.lower()), drive_exit, inputs, post2, native=None, judge=None,
+    h = e2.Harness("rewritten_test_passes_after_exit_code_%s%s_%s" % ("with_expectations_" if existing else "", "cram" if cram else "markdown", mode.lower()), drive_exit, inputs, post2, native=None, judge=None,
                    describe="a test case that failed on its exit code is rewritten to a block that parses back to the same command, the recorded exit code, and one "
                             "quantifier-free expectation per line of the stream that is validated (stderr iff output_stream is stderr), each matching its line",
                    bound="exit codes 0..255 recorded × written (absent or 0..255, different); stdout 0..%d lines [ab]x, stderr 0..%d lines [ab]y, with/without final "
@@ -563,6 +574,9 @@ def replay_update_exit_code(rep, h, res, mode, cram):
         w = {"stdout": list(text(n["out"])), "stderr": list(text(n["err"])), "exit": e2.model_int(model, n["actual"]),
              "expected": e2.model_int(model, n["expected"]) if z3.is_true(model.eval(n["exp_set"].z(), model_completion=True)) else None,
              "stream": n["stream"].lower() if n["stream"] else None, "escaper": mode.lower(), "cram": cram, "existing": []}
+        if n.get("existing"):
+            first = (n["err"] if n["stream"] == "Stderr" else n["out"])[0]
+            w["existing"] = ["".join(chr(e2.model_int(model, c)) for c in first["content"]) + " (?)"]
         nk, nv = NAT.call("update_exit_code", [w])
         if nk != "return" or nv.get("passes") is not True:
             rep.violation("updated-test-fails:%s:exit-code:%s" % ("cram" if cram else "markdown", n["stream"] or "unset"),
@@ -664,6 +678,11 @@ def run(pid, tier):
             resx = e2.run_with_raw(prog, hx, max_witnesses=6)
             replay_update_exit_code(rep, hx, resx, mode, cram)
             e2.record(rep, hx, resx)
+            # … of a test case that already has a (quantified) expectation for the first line only
+            hx2 = h_update_exit_code(mode, cram, 2, existing=True)
+            resx2 = e2.run_with_raw(prog, hx2, max_witnesses=4)
+            replay_update_exit_code(rep, hx2, resx2, mode, cram)
+            e2.record(rep, hx2, resx2)
     NAT.close()
     tot_paths = sum(s.get("paths", 0) for s in rep.subclaims)
     rep.coverage.update({
